@@ -279,6 +279,12 @@ enum Receiving {
         completed: bool,
     },
     Requests(Vec<Request>),
+    /// First chunk of the next message, received by `recv_chunk` when it
+    /// detected that transmission of the previous message was cancelled.
+    Restarted {
+        buf: Bytes,
+        last: bool,
+    },
 }
 
 /// Receives byte data over a channel.
@@ -412,6 +418,14 @@ impl Receiver {
             self.credits.return_flush().await;
 
             match &mut self.receiving {
+                // First chunk of message that followed a cancelled message.
+                Receiving::Restarted { .. } => {
+                    if let Receiving::Restarted { buf, last } = mem::take(&mut self.receiving) {
+                        self.receiving = Receiving::Chunks { chunks: VecDeque::new(), completed: last };
+                        return Ok(Some(buf));
+                    }
+                }
+
                 // Chunks from receive operation started by recv_any available.
                 Receiving::Chunks { chunks, .. } if !chunks.is_empty() => {
                     return Ok(Some(chunks.pop_front().unwrap()));
@@ -432,8 +446,7 @@ impl Receiver {
                             // First segment without last segment indicates that last transmission
                             // was cancelled.
                             (Receiving::Chunks { .. }, true) => {
-                                self.receiving =
-                                    Receiving::Chunks { chunks: vec![data.buf].into(), completed: data.last };
+                                self.receiving = Receiving::Restarted { buf: data.buf, last: data.last };
                                 return Err(RecvChunkError::Cancelled);
                             }
                             // Either continuation or start of transmission.
@@ -473,6 +486,36 @@ impl Receiver {
         }
     }
 
+    /// Processes a received data chunk for [recv_any](Self::recv_any).
+    fn recv_data(&mut self, buf: Bytes, first: bool, last: bool) -> Option<Received> {
+        if first {
+            self.receiving = Receiving::Data(DataBuf::new());
+        }
+
+        if let Receiving::Data(mut data_buf) = mem::take(&mut self.receiving) {
+            // Try to add data to buffer.
+            match data_buf.try_push(buf, self.max_data_size) {
+                // Data fits into buffer.
+                Ok(()) => {
+                    if last {
+                        return Some(Received::Data(data_buf));
+                    } else {
+                        self.receiving = Receiving::Data(data_buf);
+                    }
+                }
+
+                // Maximum message size has been reached.
+                Err(buf) => {
+                    data_buf.bufs.push_back(buf);
+                    self.receiving = Receiving::Chunks { chunks: data_buf.bufs, completed: last };
+                    return Some(Received::Chunks);
+                }
+            }
+        }
+
+        None
+    }
+
     /// Receives data or ports over the channel.
     pub async fn recv_any(&mut self) -> Result<Option<Received>, RecvError> {
         if self.finished {
@@ -482,35 +525,24 @@ impl Receiver {
         loop {
             self.credits.return_flush().await;
 
+            // Continue with message whose first chunk was already received by recv_chunk,
+            // when it detected that transmission of the previous message was cancelled.
+            if let Receiving::Restarted { .. } = &self.receiving
+                && let Receiving::Restarted { buf, last } = mem::take(&mut self.receiving)
+            {
+                if let Some(received) = self.recv_data(buf, true, last) {
+                    return Ok(Some(received));
+                }
+                continue;
+            }
+
             match self.rx.recv().await {
                 // Data message.
                 Some(PortReceiveMsg::Data(data)) => {
                     self.credits.start_return(data.credit, self.remote_port, &self.tx);
 
-                    if data.first {
-                        self.receiving = Receiving::Data(DataBuf::new());
-                    }
-
-                    if let Receiving::Data(mut data_buf) = mem::take(&mut self.receiving) {
-                        // Try to add data to buffer.
-                        match data_buf.try_push(data.buf, self.max_data_size) {
-                            // Data fits into buffer.
-                            Ok(()) => {
-                                if data.last {
-                                    return Ok(Some(Received::Data(data_buf)));
-                                } else {
-                                    self.receiving = Receiving::Data(data_buf);
-                                }
-                            }
-
-                            // Maximum message size has been reached.
-                            Err(buf) => {
-                                data_buf.bufs.push_back(buf);
-                                self.receiving =
-                                    Receiving::Chunks { chunks: data_buf.bufs, completed: data.last };
-                                return Ok(Some(Received::Chunks));
-                            }
-                        }
+                    if let Some(received) = self.recv_data(data.buf, data.first, data.last) {
+                        return Ok(Some(received));
                     }
                 }
 
